@@ -517,11 +517,12 @@ func RunCheck(cfg CheckConfig) int {
 
 	// evidence
 	var samples []map[string]any
+	sampled := map[string]bool{}
 	for _, o := range obls {
-		if o.Canary || o.Kind == "safety" {
+		if o.Canary || o.Kind == "safety" || sampled[o.Name] {
 			continue
 		}
-		if len(samples) >= 12 {
+		if len(samples) >= 40 {
 			break
 		}
 		isTagged := false
@@ -533,6 +534,7 @@ func RunCheck(cfg CheckConfig) int {
 		if !isTagged {
 			continue
 		}
+		sampled[o.Name] = true
 		samples = append(samples, map[string]any{"obligation": o.Name, "clause": o.Clause, "result": o.Result, "solver": o.Solver, "seconds": round3(o.Seconds), "hypotheses": len(o.Hyps)})
 	}
 	if len(samples) == 0 {
